@@ -255,7 +255,7 @@ def _struct(spec, ctx, R):
         c[k:, k:] = refq.fa(refq.symmetrize(B2 + refq.herm(B2)))
         A = refq.qa(c)
     elif st == "scaled":
-        e = _eigs(rng, "mixed_sign", n) * float(rng.choice([1e-8, 1e-4, 1e4, 1e8]))
+        e = _eigs(rng, "mixed_sign", n) * float(rng.choice([1e-8, 1e-4, 1e4, 1e8]))  # the stated range of the property
         A, _ = refq.hermitian_with_eigs(rng, e)
     elif st == "layout":
         A, _ = refq.hermitian_with_eigs(rng, _eigs(rng, "simple", n))
